@@ -99,6 +99,9 @@ Qed.
 Lemma fields_eqb_refl f : fields_eqb f f = true.
 Proof. apply fields_eqb_eq. reflexivity. Qed.
 
+Lemma OK_inj {A} (a b : A) : OK a = OK b -> a = b.
+Proof. intros H. injection H. auto. Qed.
+
 Lemma last_opt_map {A B} (f : A -> B) l : last_opt (map f l) = option_map f (last_opt l).
 Proof. unfold last_opt. rewrite <- map_rev. destruct (rev l); reflexivity. Qed.
 
@@ -223,7 +226,7 @@ Proof.
     rewrite (local_time_tt_val abbrs min64 ty) in H by (auto; unfold int64, min64, max64; lia).
     rewrite EC in H. cbn [bind al_cs] in H.
     destruct (set_civil_limits abbrs rest) as [r|] eqn:ER; [|discriminate H]. cbn [bind] in H.
-    inversion H; subst out. destruct (IH _ Fo' eq_refl) as [M L].
+    apply OK_inj in H. subst out. destruct (IH _ Fo' eq_refl) as [M L].
     split; [cbn [map tt_off]; rewrite M; reflexivity|].
     constructor; [|exact L]. unfold limits_ok. cbn [tt_cmax tt_cmin tt_off tt_abbr].
     apply cstr_from_inv in EC. auto.
